@@ -540,12 +540,14 @@ class C18(Prop):
             ps = [run.host(h1, s, dp, kw), run.host(h2, s, None, kw), run.host(h1, s.upper(), 0, kw),
                   run.host(None, None, None, kw, via_url=f"{s.upper()}://{h2}:{dp}/p?q"),
                   run.host(None, None, None, kw, via_url=f"{s}://{h1}/")]
-            if any(p is None for p in ps) or any(p is not ps[0] for p in ps):
+            if all(p is None for p in ps):
+                res.bump("variants:rejected")        # a default keyword the key constructor rejects
+            elif any(p is None for p in ps) or any(p is not ps[0] for p in ps):
                 self.fail(res, case, "split-pool:case-or-default-port",
                           "contexts equal up to scheme/host case and explicit-vs-default port did not share one pool",
                           pools=[None if p is None else run.pool_ids[id(p)] for p in ps])
             other = run.host(h1, s, dp + 1, kw)
-            if other is ps[0]:
+            if other is not None and other is ps[0]:
                 self.fail(res, case, "shared-pool:port", "a different port was given the same pool")
             self.check_history(run, res, case)
         elif kind in ("proxypair", "proxyover"):
@@ -564,8 +566,12 @@ class C18(Prop):
                     run = self.Run(self, m, objs, lg, res, case, lines, out)
                     p = run.host("example.com", scheme, None, None)
                     q = run.host("EXAMPLE.com", scheme, None, None)
+                    if p is None and q is None:
+                        res.bump("proxypair:rejected")       # the key constructor rejects the manager's own defaults
+                        return lines, out
                     if p is None or p is not q:
                         self.fail(res, case, "split-pool:case-or-default-port", "ProxyManager: host case variants did not share a pool")
+                        return lines, out
                     keys.append(list(m.pools.keys()))
                 if len(keys[0]) != 1 or len(keys[1]) != 1 or keys[0][0] == keys[1][0]:
                     self.fail(res, case, "proxy-setting-not-keyed:" + case["kw"],
@@ -582,7 +588,9 @@ class C18(Prop):
                 p1 = run.host("example.com", scheme, None, {kw: a})
                 p2 = run.host("example.com", scheme, None, {kw: b})
                 p3 = run.host("example.com", scheme, None, {kw: a})
-                if p1 is None or p2 is None or p1 is p2 or p1 is not p3:
+                if p1 is None and p2 is None:
+                    res.bump("proxyover:rejected")
+                elif p1 is None or p2 is None or p1 is p2 or p1 is not p3:
                     self.fail(res, case, "shared-pool:" + kw, f"ProxyManager: overriding {kw!r} with two values did not give two pools")
                 self.check_history(run, res, case)
         elif kind == "rand":
